@@ -275,6 +275,9 @@ func (h *HoldWriter) Flush() error {
 	if len(b) == 0 {
 		return nil
 	}
+	// (crypto/tls sets the write deadline to "now" once it has sent its close_notify, so that later writes fail; the
+	// bytes collected here are that close_notify and what preceded it)
+	_ = h.Conn.SetWriteDeadline(time.Time{})
 	_, err := h.Conn.Write(b)
 	return err
 }
